@@ -17,6 +17,17 @@ Section InsAll.
              (modifiers_j cfg) (metadata_entry_j cfg) (section_j cfg) (parse_text_block_j cfg)).
   Qed.
 
+  Theorem components_jsim :
+    HJ (St jany) (ingredient_p cfg) (ingredient_p cfg) (CP erel anyR)
+    /\ HJ (St jany) (cookware_p cfg) (cookware_p cfg) (CP erel anyR)
+    /\ HJ (St jany) (timer_p cfg) (timer_p cfg) (CP erel anyR).
+  Proof.
+    split; [|split].
+    - apply (ingredient_j cfg (parse_quantity_j cfg) check_empty_name_j (parse_alias_j cfg) (parse_modifiers_j cfg) (modifiers_j cfg)).
+    - apply (cookware_j cfg (parse_quantity_j cfg) check_empty_name_j (parse_alias_j cfg) (parse_modifiers_j cfg) (modifiers_j cfg)).
+    - apply (timer_j cfg (parse_quantity_j cfg) (modifiers_j cfg)).
+  Qed.
+
   Theorem blocks_jsim f1 f2 ts1 ts2 old evs1 evs2 :
     jany ts1 ts2 -> Forall2 erel evs1 evs2 ->
     OR (Forall2 erel) (blocks_loop cfg f1 ts1 old evs1) (blocks_loop cfg f2 ts2 old evs2).
